@@ -4,6 +4,7 @@ package main
 
 import (
 	"bytes"
+	"context"
 	"fmt"
 	"os"
 	"path/filepath"
@@ -14,6 +15,8 @@ import (
 	"sync"
 	"time"
 
+	"github.com/whatap/golib/config"
+	"github.com/whatap/golib/lang/value"
 	"github.com/whatap/golib/logger/logfile"
 	"github.com/whatap/golib/util/dateutil"
 	"verif/harness/vh"
@@ -156,7 +159,7 @@ type seed struct {
 }
 
 type hop struct {
-	Kind     string `json:"k"` // log proc clr lvl cfg read
+	Kind     string `json:"k"` // log proc clr lvl cfg read files path
 	T        int64  `json:"t"`
 	Meth     string `json:"m,omitempty"`
 	ID       string `json:"id,omitempty"`  // hex
@@ -320,6 +323,27 @@ func snapshot(logs string) (string, map[string][]byte) {
 	return strings.Join(parts, ","), m
 }
 
+// dirListing: the entries of <home>/logs in os.ReadDir order (sorted by name), driver syntax
+func dirListing(logs string) string {
+	es, _ := os.ReadDir(logs)
+	var parts []string
+	for _, e := range es {
+		fi, err := e.Info()
+		if err != nil {
+			continue
+		}
+		k := "f"
+		if fi.IsDir() {
+			k = "d"
+		}
+		parts = append(parts, fmt.Sprintf("%s:%s:%d", vh.Hex([]byte(e.Name())), k, fi.Size()))
+	}
+	if len(parts) == 0 {
+		return "-"
+	}
+	return strings.Join(parts, ",")
+}
+
 func curSize(l *logfile.FileLogger) int64 {
 	f := l.GetLogFile()
 	if f == nil {
@@ -382,7 +406,7 @@ var hangEstablished bool
 
 func fillsTable(c *hcase) bool {
 	switch strings.TrimSuffix(c.Gen, "+probe") {
-	case "manyids", "fulltable", "evict":
+	case "manyids", "fulltable", "refreshfull", "evict":
 		return true
 	}
 	return len(c.Ops) > 600
@@ -436,7 +460,21 @@ func runImpl(c *hcase) *obs {
 	c.setTime(-1, c.T0)
 	var l *logfile.FileLogger
 	out := vh.Guard(func() {
-		l = logfile.NewFileLogger(logfile.WithHomePath(home), logfile.WithOnameLogID(c.Oname, c.LogID), logfile.WithLevel(c.Level))
+		// options that must not change anything observable: a context, a config observer, stdout off
+		opts := []logfile.FileLoggerOption{logfile.WithHomePath(home), logfile.WithOnameLogID(c.Oname, c.LogID), logfile.WithLevel(c.Level)}
+		sel := c.T0/1000 + int64(len(c.Ops)) + int64(len(c.Seeds))
+		if sel%3 == 1 {
+			ctx, cancel := context.WithCancel(context.Background())
+			defer cancel()
+			opts = append([]logfile.FileLoggerOption{logfile.WithContext(ctx, cancel)}, opts...)
+		}
+		if sel%5 == 2 {
+			opts = append(opts, logfile.WithConfigObserver(config.NewConfigObserver()))
+		}
+		if sel%7 == 3 {
+			opts = append(opts, logfile.WithStdout(false))
+		}
+		l = logfile.NewFileLogger(opts...)
 	})
 	created++
 	if !out.OK() || l == nil {
@@ -532,6 +570,35 @@ ops:
 			} else {
 				ob.outs[i] = fmt.Sprintf("data %d %d %s", d.Before, d.Next, vh.Hex([]byte(d.Text)))
 			}
+		case "files":
+			// GetLogFiles: the listing of <home>/logs in ReadDir order is handed to the model; a panic is a
+			// modelled quirk (dot inside logID/oname), not a failure of the statement
+			ob.snaps[i] = dirListing(logs)
+			var mv *value.MapValue
+			g := vh.Guard(func() { mv = l.GetLogFiles() })
+			if !g.OK() || mv == nil {
+				ob.outs[i] = "panic"
+			} else {
+				var ents []string
+				for en := mv.Keys(); en.HasMoreElements(); {
+					k := en.NextString()
+					sz := int64(-1)
+					if d, ok := mv.Get(k).(*value.DecimalValue); ok {
+						sz = d.Val
+					}
+					ents = append(ents, fmt.Sprintf("%s:%d", vh.Hex([]byte(k)), sz))
+				}
+				sort.Strings(ents)
+				ob.outs[i] = "files " + vh.List(ents)
+			}
+		case "path":
+			var pth string
+			g := vh.Guard(func() { pth = l.GetLogFilePath() })
+			if !g.OK() {
+				ob.outs[i] = "panic"
+			} else {
+				ob.outs[i] = "path " + vh.Hex([]byte(strings.TrimPrefix(pth, "/")))
+			}
 		default:
 			vh.Die("unknown op kind %q", o.Kind)
 		}
@@ -586,6 +653,14 @@ func driverLines(c *hcase, ob *obs) []string {
 				snap = "-"
 			}
 			lines = append(lines, fmt.Sprintf("READ %d %s %d %d %s", o.T, vh.Hex([]byte(ob.readFile[i])), o.Endpos, o.Length, snap))
+		case "files":
+			snap := ob.snaps[i]
+			if snap == "" {
+				snap = "-"
+			}
+			lines = append(lines, "FILES "+snap)
+		case "path":
+			lines = append(lines, "PATH")
 		}
 	}
 	lines = append(lines, "DUMP")
